@@ -1,4 +1,4 @@
-\* exhaustive over the scripted tree T3 (3 honest producers, one fork): every delivery order to two observers, no restart
+\* tree T3 (3 honest producers, one fork): every delivery order to TWO observers, 1 restart at any point: all properties
 SPECIFICATION Spec
 CONSTANTS
   N = 3
@@ -6,10 +6,10 @@ CONSTANTS
   Nodes <- Obs2
   Blk0 <- T3
   MaxBlocks = 9
-  MaxRestarts = 0
+  MaxRestarts = 1
   ByzMode = "branch"
   ByzRanges <- R123
-  Fixes <- NoFix
+  Fixes <- AllFixes
 VIEW view
 INVARIANTS TypeOK LibOnMain ConfirmsOnMain Agreement HonestConfirms
 PROPERTIES LibMonotone Final NoForkBelowLib LibQuorum RestoreEqualsRecompute
